@@ -394,3 +394,128 @@ Proof.
       try reflexivity; lia.
   - destruct (Z.leb_spec (i_ptr it + i_bl it) (i_end it)); [lia|reflexivity].
 Qed.
+
+(* ---- C12: the six comparison operators of random_access_iterator (friend functions, instantiated through a probe) ---- *)
+Definition src_it_cmp (o : cmpop) (S B : ity) : list effect :=
+  match o, S, B with
+  | CEq, U8, U8 => src_it_eq_U8_U8
+  | CEq, U8, U16 => src_it_eq_U8_U16
+  | CEq, U8, U32 => src_it_eq_U8_U32
+  | CEq, U8, U64 => src_it_eq_U8_U64
+  | CEq, U16, U8 => src_it_eq_U16_U8
+  | CEq, U16, U16 => src_it_eq_U16_U16
+  | CEq, U16, U32 => src_it_eq_U16_U32
+  | CEq, U16, U64 => src_it_eq_U16_U64
+  | CEq, U32, U8 => src_it_eq_U32_U8
+  | CEq, U32, U16 => src_it_eq_U32_U16
+  | CEq, U32, U32 => src_it_eq_U32_U32
+  | CEq, U32, U64 => src_it_eq_U32_U64
+  | CEq, U64, U8 => src_it_eq_U64_U8
+  | CEq, U64, U16 => src_it_eq_U64_U16
+  | CEq, U64, U32 => src_it_eq_U64_U32
+  | CEq, U64, U64 => src_it_eq_U64_U64
+  | CNe, U8, U8 => src_it_ne_U8_U8
+  | CNe, U8, U16 => src_it_ne_U8_U16
+  | CNe, U8, U32 => src_it_ne_U8_U32
+  | CNe, U8, U64 => src_it_ne_U8_U64
+  | CNe, U16, U8 => src_it_ne_U16_U8
+  | CNe, U16, U16 => src_it_ne_U16_U16
+  | CNe, U16, U32 => src_it_ne_U16_U32
+  | CNe, U16, U64 => src_it_ne_U16_U64
+  | CNe, U32, U8 => src_it_ne_U32_U8
+  | CNe, U32, U16 => src_it_ne_U32_U16
+  | CNe, U32, U32 => src_it_ne_U32_U32
+  | CNe, U32, U64 => src_it_ne_U32_U64
+  | CNe, U64, U8 => src_it_ne_U64_U8
+  | CNe, U64, U16 => src_it_ne_U64_U16
+  | CNe, U64, U32 => src_it_ne_U64_U32
+  | CNe, U64, U64 => src_it_ne_U64_U64
+  | CLt, U8, U8 => src_it_lt_U8_U8
+  | CLt, U8, U16 => src_it_lt_U8_U16
+  | CLt, U8, U32 => src_it_lt_U8_U32
+  | CLt, U8, U64 => src_it_lt_U8_U64
+  | CLt, U16, U8 => src_it_lt_U16_U8
+  | CLt, U16, U16 => src_it_lt_U16_U16
+  | CLt, U16, U32 => src_it_lt_U16_U32
+  | CLt, U16, U64 => src_it_lt_U16_U64
+  | CLt, U32, U8 => src_it_lt_U32_U8
+  | CLt, U32, U16 => src_it_lt_U32_U16
+  | CLt, U32, U32 => src_it_lt_U32_U32
+  | CLt, U32, U64 => src_it_lt_U32_U64
+  | CLt, U64, U8 => src_it_lt_U64_U8
+  | CLt, U64, U16 => src_it_lt_U64_U16
+  | CLt, U64, U32 => src_it_lt_U64_U32
+  | CLt, U64, U64 => src_it_lt_U64_U64
+  | CLe, U8, U8 => src_it_le_U8_U8
+  | CLe, U8, U16 => src_it_le_U8_U16
+  | CLe, U8, U32 => src_it_le_U8_U32
+  | CLe, U8, U64 => src_it_le_U8_U64
+  | CLe, U16, U8 => src_it_le_U16_U8
+  | CLe, U16, U16 => src_it_le_U16_U16
+  | CLe, U16, U32 => src_it_le_U16_U32
+  | CLe, U16, U64 => src_it_le_U16_U64
+  | CLe, U32, U8 => src_it_le_U32_U8
+  | CLe, U32, U16 => src_it_le_U32_U16
+  | CLe, U32, U32 => src_it_le_U32_U32
+  | CLe, U32, U64 => src_it_le_U32_U64
+  | CLe, U64, U8 => src_it_le_U64_U8
+  | CLe, U64, U16 => src_it_le_U64_U16
+  | CLe, U64, U32 => src_it_le_U64_U32
+  | CLe, U64, U64 => src_it_le_U64_U64
+  | CGt, U8, U8 => src_it_gt_U8_U8
+  | CGt, U8, U16 => src_it_gt_U8_U16
+  | CGt, U8, U32 => src_it_gt_U8_U32
+  | CGt, U8, U64 => src_it_gt_U8_U64
+  | CGt, U16, U8 => src_it_gt_U16_U8
+  | CGt, U16, U16 => src_it_gt_U16_U16
+  | CGt, U16, U32 => src_it_gt_U16_U32
+  | CGt, U16, U64 => src_it_gt_U16_U64
+  | CGt, U32, U8 => src_it_gt_U32_U8
+  | CGt, U32, U16 => src_it_gt_U32_U16
+  | CGt, U32, U32 => src_it_gt_U32_U32
+  | CGt, U32, U64 => src_it_gt_U32_U64
+  | CGt, U64, U8 => src_it_gt_U64_U8
+  | CGt, U64, U16 => src_it_gt_U64_U16
+  | CGt, U64, U32 => src_it_gt_U64_U32
+  | CGt, U64, U64 => src_it_gt_U64_U64
+  | CGe, U8, U8 => src_it_ge_U8_U8
+  | CGe, U8, U16 => src_it_ge_U8_U16
+  | CGe, U8, U32 => src_it_ge_U8_U32
+  | CGe, U8, U64 => src_it_ge_U8_U64
+  | CGe, U16, U8 => src_it_ge_U16_U8
+  | CGe, U16, U16 => src_it_ge_U16_U16
+  | CGe, U16, U32 => src_it_ge_U16_U32
+  | CGe, U16, U64 => src_it_ge_U16_U64
+  | CGe, U32, U8 => src_it_ge_U32_U8
+  | CGe, U32, U16 => src_it_ge_U32_U16
+  | CGe, U32, U32 => src_it_ge_U32_U32
+  | CGe, U32, U64 => src_it_ge_U32_U64
+  | CGe, U64, U8 => src_it_ge_U64_U8
+  | CGe, U64, U16 => src_it_ge_U64_U16
+  | CGe, U64, U32 => src_it_ge_U64_U32
+  | CGe, U64, U64 => src_it_ge_U64_U64
+  | _, _, _ => nil
+  end.
+
+(* each comparison is the mathematical comparison of the two indices: no narrowing, no detour through operator- *)
+Lemma src_it_cmp_is_model o S B a b :
+  is_uns S = true -> is_uns B = true -> in_range S a = true -> in_range S b = true ->
+  effs_eval [("lhs.index", a); ("rhs.index", b)] (src_it_cmp o S B) = Some [zb (ecmp o a b)].
+Proof.
+  intros HS HB Ha Hb.
+  destruct S; try discriminate HS; destruct B; try discriminate HB; destruct o;
+    unfold src_it_cmp, src_it_eq_U8_U8, src_it_eq_U8_U16, src_it_eq_U8_U32, src_it_eq_U8_U64, src_it_eq_U16_U8, src_it_eq_U16_U16, src_it_eq_U16_U32, src_it_eq_U16_U64, src_it_eq_U32_U8, src_it_eq_U32_U16, src_it_eq_U32_U32, src_it_eq_U32_U64, src_it_eq_U64_U8, src_it_eq_U64_U16, src_it_eq_U64_U32, src_it_eq_U64_U64, src_it_ne_U8_U8, src_it_ne_U8_U16, src_it_ne_U8_U32, src_it_ne_U8_U64, src_it_ne_U16_U8, src_it_ne_U16_U16, src_it_ne_U16_U32, src_it_ne_U16_U64, src_it_ne_U32_U8, src_it_ne_U32_U16, src_it_ne_U32_U32, src_it_ne_U32_U64, src_it_ne_U64_U8, src_it_ne_U64_U16, src_it_ne_U64_U32, src_it_ne_U64_U64, src_it_lt_U8_U8, src_it_lt_U8_U16, src_it_lt_U8_U32, src_it_lt_U8_U64, src_it_lt_U16_U8, src_it_lt_U16_U16, src_it_lt_U16_U32, src_it_lt_U16_U64, src_it_lt_U32_U8, src_it_lt_U32_U16, src_it_lt_U32_U32, src_it_lt_U32_U64, src_it_lt_U64_U8, src_it_lt_U64_U16, src_it_lt_U64_U32, src_it_lt_U64_U64, src_it_le_U8_U8, src_it_le_U8_U16, src_it_le_U8_U32, src_it_le_U8_U64, src_it_le_U16_U8, src_it_le_U16_U16, src_it_le_U16_U32, src_it_le_U16_U64, src_it_le_U32_U8, src_it_le_U32_U16, src_it_le_U32_U32, src_it_le_U32_U64, src_it_le_U64_U8, src_it_le_U64_U16, src_it_le_U64_U32, src_it_le_U64_U64, src_it_gt_U8_U8, src_it_gt_U8_U16, src_it_gt_U8_U32, src_it_gt_U8_U64, src_it_gt_U16_U8, src_it_gt_U16_U16, src_it_gt_U16_U32, src_it_gt_U16_U64, src_it_gt_U32_U8, src_it_gt_U32_U16, src_it_gt_U32_U32, src_it_gt_U32_U64, src_it_gt_U64_U8, src_it_gt_U64_U16, src_it_gt_U64_U32, src_it_gt_U64_U64, src_it_ge_U8_U8, src_it_ge_U8_U16, src_it_ge_U8_U32, src_it_ge_U8_U64, src_it_ge_U16_U8, src_it_ge_U16_U16, src_it_ge_U16_U32, src_it_ge_U16_U64, src_it_ge_U32_U8, src_it_ge_U32_U16, src_it_ge_U32_U32, src_it_ge_U32_U64, src_it_ge_U64_U8, src_it_ge_U64_U16, src_it_ge_U64_U32, src_it_ge_U64_U64;
+    run_src; reflexivity.
+Qed.
+
+Theorem src_it_order_matches_indices S B x y :
+  is_uns S = true -> is_uns B = true -> in_range S (i_idx x) = true -> in_range S (i_idx y) = true ->
+  effs_eval [("lhs.index", i_idx x); ("rhs.index", i_idx y)] (src_it_cmp CEq S B) = Some [zb (it_eq x y)] /\
+  effs_eval [("lhs.index", i_idx x); ("rhs.index", i_idx y)] (src_it_cmp CLt S B) = Some [zb (it_lt x y)] /\
+  effs_eval [("lhs.index", i_idx x); ("rhs.index", i_idx y)] (src_it_cmp CLe S B) = Some [zb (it_le x y)] /\
+  effs_eval [("lhs.index", i_idx x); ("rhs.index", i_idx y)] (src_it_cmp CNe S B) = Some [zb (negb (it_eq x y))] /\
+  effs_eval [("lhs.index", i_idx x); ("rhs.index", i_idx y)] (src_it_cmp CGt S B) = Some [zb (it_lt y x)] /\
+  effs_eval [("lhs.index", i_idx x); ("rhs.index", i_idx y)] (src_it_cmp CGe S B) = Some [zb (it_le y x)].
+Proof.
+  intros HS HB Hx Hy. repeat split; rewrite src_it_cmp_is_model by assumption; reflexivity.
+Qed.
